@@ -212,7 +212,10 @@ class Run:
         except subprocess.TimeoutExpired:
             raise Infra("harness timeout (%s)" % family)
         if p.returncode not in ok_codes:
-            raise Infra("harness %s exited %d:\n%s" % (family, p.returncode, (p.stdout + p.stderr)[-4000:]))
+            out = p.stdout + p.stderr
+            # a Go runtime crash prints its reason first and a goroutine dump after it: keep both ends
+            msg = out if len(out) <= 6000 else out[:2500] + "\n[...]\n" + out[-3000:]
+            raise Infra("harness %s exited %d:\n%s" % (family, p.returncode, msg))
         st = json.load(open(stats))
         log("exec %s: %d events in %d histories, %.1fs" % (family, st["events"], st["histories"], time.time() - t))
         for k, v in st["ops"].items():
